@@ -65,6 +65,10 @@ class BadState(Exception):
     pass
 
 
+class NonFinite(Exception):
+    """A fluent overflowed to inf / nan in floating point: the case is outside what exact rationals can judge."""
+
+
 def read_state_text(text):
     """Serialized state text -> reference state, with an independent reader."""
     try:
@@ -85,6 +89,8 @@ def read_state_tree(tree):
             if len(e) != 3 or isinstance(e[1], str) or not isinstance(e[2], str):
                 raise BadState(f"malformed fluent {e!r}")
             key = tuple(e[1])
+            if e[2].lstrip("+-") in ("inf", "nan", "infinity"):
+                raise NonFinite(f"{e!r}")
             try:
                 val = Fraction(e[2])
             except (ValueError, ZeroDivisionError):
